@@ -183,9 +183,14 @@ TEMPLATES = [
     "len = a\nlen",
     "f = p => g(1)\ng = x => p\nf(pv)",
     "f = p => p\nf(pv)\np",
+    "size = v => len(v)\nr1 = size(l)\nlen = v => a\n[r1, size(l)]",
+    "g = (len, v) => len(v)\n[g(len, l), g(w => pv, l)]",
+    "x = a\ng = y => x + y\nf = x => g(zero)\nf(pv)",
 ]
 if isinstance(hlib.PARAM, dict) and "t" in hlib.PARAM:
     prewarm(TEMPLATES[hlib.PARAM["t"]])
+if isinstance(hlib.PARAM, dict) and "text" in hlib.PARAM:
+    prewarm(hlib.PARAM["text"])
 
 
 def api_scope(hb: bool, hv: int, pv: int, a: int, n: int) -> None:
@@ -207,7 +212,7 @@ def api_scope(hb: bool, hv: int, pv: int, a: int, n: int) -> None:
         except Exception:
             pass
         return None
-    names = {'l': l, 'pv': pv, 'a': a, 'boom': boom, 'h': h, 'p': hv}
+    names = {'l': l, 'pv': pv, 'a': a, 'boom': boom, 'h': h, 'p': hv, 'zero': 0}
     host_len = (lambda x: hv)
     if hb:
         names['len'] = host_len
@@ -231,4 +236,35 @@ def api_scope(hb: bool, hv: int, pv: int, a: int, n: int) -> None:
         assert names['p'] == hv
     elif t == 11:
         assert out[0] == 'ok' and out[1] == hv and names['p'] == hv, "parameter binding survived the call"
+    elif t == 12:
+        hlib.assume(not hb)
+        assert out[0] == 'ok' and out[1] == [n, a], "a top-level binding made after the first use of a call site does not shadow the builtin there"
+    elif t == 13:
+        hlib.assume(not hb)
+        assert out[0] == 'ok' and out[1] == [n, pv], "a parameter named like a builtin does not shadow it on a later call"
+    elif t == 14:
+        assert out[0] == 'ok' and out[1] == pv, "a parameter of an outer call in progress must shadow the host/top-level binding for callees (dynamic scoping)"
+    hlib.done()
+
+
+def two_evals(hv: int, n: int, first_shadowed: bool) -> None:
+    """
+    pre: 0 <= n <= 2
+    post: True
+    """
+    # the same source evaluated twice on one parser (tree shared through the parse cache): host bindings override
+    # builtins in EVERY call, whatever an earlier call resolved at the same call site
+    hlib.enter(locals())
+    l = [0] * n
+    text = hlib.PARAM["text"]
+    shadow = {'l': l, 'len': (lambda x: hv), 'lower': (lambda x: hv), 'str': (lambda x: hv)}
+    plain = {'l': l}
+    order = [shadow, plain] if first_shadowed else [plain, shadow]
+    outs = [run_eval(text, dict(nm), 1000) for nm in order]
+    for nm, out in zip(order, outs):
+        assert out[0] == 'ok'
+        if nm is shadow:
+            assert out[1] == hv, "host binding does not override the builtin on this call (an earlier call resolved the same call site)"
+        else:
+            assert out[1] != hv or hv == n, "builtin not used although the host does not bind the name"
     hlib.done()
